@@ -15,6 +15,8 @@ pub mod c07;
 pub mod c10;
 pub mod c11;
 pub mod c12;
+pub mod c19;
+pub mod c20;
 pub mod c05;
 
 pub fn run(prop: &str, thorough: bool) -> Option<Report> {
@@ -38,6 +40,8 @@ pub fn run(prop: &str, thorough: bool) -> Option<Report> {
         "C16" => apps::run_c16(&mut rep, thorough),
         "C17" => apps::run_c17(&mut rep, thorough),
         "C18" => apps::run_c18(&mut rep, thorough),
+        "C19" => c19::run(&mut rep, thorough),
+        "C20" => c20::run(&mut rep, thorough),
         _ => return None,
     }
     Some(rep)
